@@ -73,7 +73,14 @@ h("compound_distance_law_r1_so2", ["C13", "C09"], "proof", LAY, "compound distan
 h("compound_componentwise_r1_so2", ["C13", "C10", "C11"], "proof", LAY, "interpolate / satisfies_bounds / enforce_bounds act component by component (each component equals the component space's own result bit for bit); enforced ==> accepted", [CS + "interpolate", CS + "satisfies_bounds", CS + "enforce_bounds", AS + "interpolate_dyn", AS + "satisfies_bounds_dyn", AS + "enforce_bounds_dyn"], tier="thorough", timeout=3000, optional=True)
 SE2 = "oxmpl/src/base/spaces/se2_state_space.rs::"
 h("se2_is_compound_r2_so2", ["C13"], "proof", "bounded: unbounded SE(2) (R^2 x SO(2)); symbolic weight and states", "SE2StateSpace(w) distance / resolution / bounds check equal the compound of R^2 and SO(2) with weights (1, w) bit for bit", [SE2 + "SE2StateSpace::new", SE2 + "distance", SE2 + "get_longest_valid_segment_length", SE2 + "satisfies_bounds"], tier="thorough", timeout=3000, optional=True)
-h("compound_satisfies_lvsl_r1_r1", ["C13"], "proof", "bounded: layout R^1 x R^1 (2 components); symbolic weights, bounds, states", "compound satisfies_bounds == conjunction of the component checks, through real Box<dyn AnyStateSpace> dispatch and Any downcasts (no panic)", [CS + "satisfies_bounds", AS + "satisfies_bounds_dyn"], timeout=1200)
+h("compound_satisfies_r1_r1_light", ["C13"], "proof", "bounded: layout R^1 x R^1 (2 components); symbolic bounds and states", "compound satisfies_bounds == conjunction of the component checks, through real Box<dyn AnyStateSpace> dispatch and Any downcasts (no panic)", [CS + "satisfies_bounds", AS + "satisfies_bounds_dyn"], timeout=900)
+h("compound_satisfies_lvsl_r1_r1", ["C13"], "proof", "bounded: layout R^1 x R^1 (2 components); symbolic weights, bounds, states", "same with validated constructors and symbolic weights", [CS + "satisfies_bounds", AS + "satisfies_bounds_dyn"], tier="thorough", timeout=1800, optional=True)
 h("se2_state_new_yaw_canonical", ["C12"], "proof", "complete", "SE2State::new stores a yaw in [-PI,PI]; all yaw with |yaw + PI| < 4 PI", ["oxmpl/src/base/states/se2_state.rs::SE2State::new"], timeout=600)
+
+
+h("so2_interp_lattice", ["C10"], "proof", "bounded: lattice of 7 special angles x 7 x 5 parameters", "on seam / antipodal / quarter-turn angles and t in {0,1/8,1/2,7/8,1}: canonical result, distance from a is t d(a,b), from b is (1-t) d(a,b), interp(b,a,1-t) is the same configuration (1e-9)", [SO2 + "interpolate", SO2 + "distance"], timeout=900)
+h("rv_distance_axes_d5", ["C09"], "proof", "bounded: dimension 5, states 0 and x e_i with 1e-100 <= |x| <= 1e100", "states that differ in one coordinate are at a positive distance and d(e,e) == 0 for every coordinate of R^5 (sqrt/powi contract stubs)", [RV + "distance"], timeout=900)
+h("compound_lvsl_lattice", ["C13"], "proof", "bounded: layout R^1 x R^1 x SO(2), three concrete weight vectors (incl. 1e-17 and 0)", "resolution == sqrt(0 + sum (l_i w_i)^2) bit for bit (also for tiny weights), through real dyn dispatch", [CS + "get_longest_valid_segment_length", AS + "get_longest_valid_segment_length_dyn"], tier="thorough", timeout=3000, optional=True)
+h("compound_interp_lattice", ["C13", "C10"], "proof", "bounded: layout R^1 x R^1 x SO(2), one concrete state pair, t = 0.25", "interpolate equals the component spaces' results on every component bit for bit and overwrites an unrelated output state (also a component that does not move)", [CS + "interpolate", AS + "interpolate_dyn"], timeout=900)
 
 HARNESSES = H
